@@ -228,7 +228,8 @@ class ZBOSS:
             self, frame, response_future=None, timeout=DEFAULT_TIMEOUT):
         """Send the frame and waits for the response."""
         if self._uart is None:
-            return
+            raise RuntimeError(
+                "Coordinator is disconnected, cannot send request")
 
         try:
             await self._uart.send(frame)
